@@ -156,6 +156,27 @@ func judgeC03(c *SrvCase, obs *SrvObs, o *Outcome) {
 		return
 	}
 	o.Class("established-observed")
+	if c.End == "close-now" && estStep == len(c.Script) && len(c.Script) >= 2 {
+		// the last two envelopes were sent back to back before the peer vanished: an established envelope collected afterwards
+		// may answer either of them. The claim must hold for one of the two readings.
+		o1 := &Outcome{}
+		judgeC03Established(c, obs, o1, estEnv, estStep)
+		if len(o1.Violations) == 0 {
+			return
+		}
+		o2 := &Outcome{}
+		judgeC03Established(c, obs, o2, estEnv, estStep-1)
+		if len(o2.Violations) == 0 {
+			return
+		}
+		o.Violations = append(o.Violations, o1.Violations...)
+		return
+	}
+	judgeC03Established(c, obs, o, estEnv, estStep)
+}
+
+// judgeC03Established: the session was established after the peer's first estStep envelopes; what is that claim backed by?
+func judgeC03Established(c *SrvCase, obs *SrvObs, o *Outcome, estEnv M, estStep int) {
 	// the peer's latest authenticating envelope
 	var last *CSym
 	for i := range c.Script {
@@ -217,7 +238,7 @@ func judgeC03(c *SrvCase, obs *SrvObs, o *Outcome) {
 			o.Fail("C03/established-from", "established envelope from %v", estEnv["from"])
 		}
 	}
-	if estState && obs.RemoteNode != regNode && obs.FinalState == "established" {
+	if obs.RemoteNode != regNode && obs.FinalState == "established" {
 		o.Fail("C03/remote-node-mismatch", "RemoteNode()=%q, registration supplied %q", obs.RemoteNode, regNode)
 	}
 }
@@ -348,6 +369,17 @@ func srvAlphabet(cfg *SrvCfg, full bool) []CSym {
 	return a
 }
 
+// inprocAlphabet keeps the symbols that can be sent on the in-process transport (library envelope values, no bytes).
+func inprocAlphabet(a []CSym) []CSym {
+	var out []CSym
+	for i := range a {
+		if InprocExpressible(&a[i]) {
+			out = append(out, a[i])
+		}
+	}
+	return out
+}
+
 // enumScripts enumerates all scripts up to maxDepth over the alphabet, not extending a script past a terminal model
 // state (model-guided pruning). visit receives a fresh copy.
 func enumScripts(cfg SrvCfg, alphabet []CSym, maxDepth int, negotiates bool, visit func(c *SrvCase)) {
@@ -383,12 +415,16 @@ func implNegotiates(cfg *SrvCfg) bool {
 
 func genSrvCfg(rt *rapid.T, modes []string) SrvCfg {
 	cfg := SrvCfg{
-		Transport: rapid.SampledFrom([]string{"tcp", "tcp-tls", "tcp-tls"}).Draw(rt, "transport"),
+		Transport: rapid.SampledFrom([]string{"tcp", "tcp-tls", "tcp-tls", "inproc"}).Draw(rt, "transport"),
 		Comp:      rapid.SampledFrom([][]string{{"none"}, {"none", "gzip"}, {"gzip", "none"}}).Draw(rt, "comp"),
 		Enc:       rapid.SampledFrom(cfgLattice.Enc).Draw(rt, "enc"),
 		Schemes:   rapid.SampledFrom(cfgLattice.Schemes).Draw(rt, "schemes"),
 		Register:  rapid.SampledFrom([]string{"echo", "echo", "assign", "assign", "error"}).Draw(rt, "register"),
 		Mode:      rapid.SampledFrom(modes).Draw(rt, "mode"),
+	}
+	if cfg.Transport == "inproc" {
+		// the in-process transport supports neither compression nor encryption: there is nothing to negotiate
+		cfg.Comp, cfg.Enc = []string{"none"}, []string{"none"}
 	}
 	// authentication table: per (scheme, credential) a drawn outcome list
 	cfg.Auth = map[string][]string{}
@@ -413,6 +449,9 @@ func genSrvCfg(rt *rapid.T, modes []string) SrvCfg {
 func genSrvCase(rt *rapid.T, modes []string) *SrvCase {
 	cfg := genSrvCfg(rt, modes)
 	alpha := srvAlphabet(&cfg, true)
+	if cfg.Transport == "inproc" {
+		alpha = inprocAlphabet(alpha)
+	}
 	c := &SrvCase{Cfg: cfg, End: rapid.SampledFrom([]string{"eof", "eof", "eof", "silence"}).Draw(rt, "end")}
 	n := rapid.IntRange(1, 8).Draw(rt, "len")
 	neg := implNegotiates(&cfg)
